@@ -195,6 +195,8 @@ def run(fx, tier):
     encoder_schema_rules(fx, v, 'C14', only=('encode_subscribe', 'encode_unsubscribe'))
     from c01 import fast_reply_rules, public_call_arguments_rule
     public_call_arguments_rule(fx, v, 'C14', ('async_subscribe', 'async_unsubscribe'))
+    from c01 import single_topic_overload_rule
+    single_topic_overload_rule(fx, v, 'C14')
     v.rule('R-DOM', 'early acknowledgements parked in the replies registry are purged before every stream write, stored only by dispatch(), used at most once')
     fast_reply_rules(fx, v, 'C14')
     # which reason codes count as admissible decides the verdict handed to the caller (shared with C20)
